@@ -16,8 +16,8 @@ import time
 DRIVER = "drv_c01"
 RULE = ("a case is one real `bob dev`/`bob build` invocation inside an edit history over a generated project (2-4 recipes, "
         "import-SCM sources, checkout/build/package scripts writing canonical manifests, variables, provided variables, "
-        "tools, classes, -D defines; edits: script text, variable values, variable lists, dependency add/remove, provided "
-        "variables, tool use/path, source file add/modify/delete, import url, class edits, reverts); distinct by (project "
+        "tools, classes, -D defines, build/package scripts that clamp the mtime of their output; edits: script text, variable values, variable lists, dependency add/remove, provided "
+        "variables, tool use/path, source file add/modify/delete/same-size modify in a dependency, import url, class edits, reverts); distinct by (project "
         "state, mode, flags, state before); non-trivial if at least one step was executed or pruned")
 ASSUMPTIONS = [
     "step scripts are deterministic functions of (digested script+environment, input workspace contents) and, in develop "
@@ -34,13 +34,17 @@ ASSUMPTIONS = [
 _CACHE = {}
 
 
-def _mk_history(r, n_edits, kinds=None, npkgs=None, require=None):
+def _mk_history(r, n_edits, kinds=None, npkgs=None, require=None, clamp=False):
     from gen import buildsim as bs
-    proj = bs.gen_project(r, npkgs)
+
+    def gen():
+        proj = bs.gen_project(r, npkgs)
+        return bs.add_clamps(proj) if clamp else proj    # (no rng draw: the streams are those without clamps)
+    proj = gen()
     for _ in range(200):
         if not require or proj.get(require):
             break
-        proj = bs.gen_project(r, npkgs)
+        proj = gen()
     hist = [proj]
     edits = [["initial"]]
     for _ in range(n_edits):
@@ -70,7 +74,7 @@ def run_history(job):
     if time.time() > job["deadline"]:
         rec["truncated"] = True
         return rec
-    hist, edits = _mk_history(r, job["n_edits"], job.get("kinds"), job.get("npkgs"), job.get("require"))
+    hist, edits = _mk_history(r, job["n_edits"], job.get("kinds"), job.get("npkgs"), job.get("require"), clamp=True)
     develop = r.random() < 0.7 or bool(job.get("force_dev"))
     jobs = 1 if (job.get("j1") or r.random() < 0.75) else r.choice([2, 4])
     rec.update(develop=develop, jobs=jobs, edits=edits, npkgs=job.get("npkgs"), require=job.get("require"))
@@ -323,6 +327,11 @@ def oracle(ctx):
         must.append(dict(repo=ctx.repo, tmp=ctx.tmp, key="%s-%d-must-fr-%d" % (ctx.prop, ctx.seed, k), n_edits=1,
                          deadline=far, npkgs=2, failrevert=True, kinds=["src-modify", "src-add"], j1=True,
                          fault_kind=("build" if k % 2 == 0 else None)))
+    # time stamps clamped by the scripts (reproducible builds) + a source edit of a dependency that keeps all sizes: the
+    # manifests are rewritten in place with the same size, inode and mtime - only the content (and the ctime) differs
+    for k in range(ctx.scale(4, 12)):
+        must.append(dict(repo=ctx.repo, tmp=ctx.tmp, key="%s-%d-must-cl-%d" % (ctx.prop, ctx.seed, k), n_edits=1 + k % 2,
+                         deadline=far, npkgs=2 + k % 2, require="clamp", force_dev=(k % 4 != 3), kinds=["src-samesize"], j1=True))
     recs = ctx.parallel(run_history, must + jobs)
     _CACHE["recs"] = recs
     for rec in recs:
